@@ -26,6 +26,8 @@ CONSTANTS Depth,      \* 1: modifiers over leaves; 2: one argument may itself be
 (* leaves *)
 Leaf(kind, c, n) == [t |-> "leaf", kind |-> kind, c |-> c, n |-> n]
 Leaves == { Leaf("poly", <<3, 1, 2>>, 0), Leaf("poly", <<1, 2, 0>>, 0), Leaf("poly", <<2, -1, 1>>, 0),
+            Leaf("poly", <<-1, 1, 0>>, 0),                      \* crosses zero ON the lattice (r = 1)
+            Leaf("formula", <<2, -1, 0>>, 0),                   \* crosses zero at r = 2, no analytic derivatives
             Leaf("formula", <<2, 1, 1>>, 0), Leaf("formula", <<4, 0, 1>>, 0),
             Leaf("const", <<5, 0, 0>>, 0), Leaf("zero", <<0, 0, 0>>, 0),
             Leaf("expn", <<6, 0, 0>>, -1), Leaf("expn", <<2, 0, 0>>, 2) }
@@ -148,6 +150,7 @@ MultiRanges(i1, i2) ==
   {Def(<<Rng(t1, 0, i1), Rng(t2, s, i2)>>) : t1 \in {">", ">="}, t2 \in {">", ">="}, s \in Starts}
   \cup {Def(<<Rng(">", s, i2), Rng(">=", 0, i1)>>) : s \in Starts}              \* listed out of order
   \cup {Def(<<Rng(">=", 1, i1)>>)}                                               \* a single explicit range
+  \cup {Def(<<Rng(">=", -1, i1)>>), Def(<<Rng(">", -1, i1), Rng(">", 1, i2)>>)}  \* a negative start: r = 0 is an interior point
 
 \* every definition derivable from t by one production
 GrowMod(t, lvl) == UNION {UNION {{Plain(it) : it \in Mods1(IF swap THEN <<Plain(l), t>> ELSE <<t, Plain(l)>>, lvl)} : swap \in BOOLEAN} : l \in Leaves}
